@@ -9,14 +9,14 @@ CLAIMS = {
  "C20": ("bounded symbolic execution (symx over z3) of the real utils.mult_matrix/apply_matrix_*/translate_matrix and utils.Plane",
          "For all real-valued matrices, points and rectangles the affine laws hold (one z3 query each, unsat of the negation); apply_matrix_rect is the tight "
          "hull on all 121 paths, also for translations up to 2^40 (far beyond the library's INF sentinel); for every add/remove/find/iterate sequence within the bound and ALL real box/query coordinates in the stated window "
-         "the real Plane agrees with a brute-force list model. Bounded model checking of the real code: holds for every value inside the bounds, nothing is claimed outside.",
+         "the real Plane agrees with a brute-force list model, incl. insertion order under re-insertion (every add/remove sequence of 5 operations). Bounded model checking of the real code: holds for every value inside the bounds, nothing is claimed outside.",
          "4.C20"),
 }
 CLAIMS.update({
  "C01": ("bounded symbolic execution (symx, symbolic bytes) of the real PDFStreamParser.nextobject() on the output of a reference writer",
          "For every string/name content of N symbolic bytes (all 256 values), every spelling the writer can choose (escapes, octal forms, line continuations, balanced "
          "parentheses, hex digit case/spacing, #xx), every number of the digit grammar, every listed structure with symbolic delimiters, and each listed read-buffer size, "
-         "the real parser returns the written value; the solver finds no value/spelling/buffer size where it does not, apart from the three known findings. Bounded (N=2 quick, 3 thorough).",
+         "the real parser returns the written value; the solver finds no value/spelling/buffer size where it does not, apart from the three known findings; long objects (100..20000 elements) in varied spellings and every sequence of three names from a pool with high bytes and their UTF-8 look-alikes (read in one process: elements, identity, dictionary keys) read back as written. Bounded (N=2 quick, 3 thorough).",
          "4.C01"),
  "C03": ("bounded symbolic execution (symx) of the real predictor / RunLength / LZW bit reader / ASCIIHex / PDFStream.decode / PDFParser stream code against reference encoders",
          "For all sample bytes and all per-row PNG filter types within the listed geometries, all run partitions, all bit patterns, the real decoders invert the reference encoders; "
@@ -35,12 +35,12 @@ CLAIMS["C04"] = ("bounded symbolic execution (symx) of the real PDFPage.get_page
 CLAIMS["C05"] = ("bounded symbolic execution (symx, real arithmetic) of the real PDFPageInterpreter.do_* text/graphics-state operators, PDFTextDevice.render_string*, render_char and LTChar against a reference interpreter of ISO 32000-1 9.3-9.4",
          "For every program BT Tf + K operators chosen symbolically from 22 (K=2 quick, 3 thorough) + Tj with ALL operands, font size and glyph widths symbolic reals, each glyph's matrix, advance, "
          "bounding box (axis-aligned case), font and fill colour equal the text model's (polynomial identities discharged by normalisation or by z3); spacing/scaling/rise with TJ adjustments, a form "
-         "XObject with symbolic Matrix leaving the caller's state untouched, stream splitting, ill-typed operands, and every program of 3 colour / q / Q operators (g rg k G RG K cs CS sc scn SC SCN; fill and stroke colour of the next glyph) are covered by further harnesses. Bounded; floats as reals.",
+         "XObject with symbolic Matrix leaving the caller's state untouched, stream splitting, ill-typed operands, and every program of 3 colour / q / Q operators (g rg k G RG K cs CS sc scn SC SCN; fill and stroke colour of the next glyph) and a second page rendered by the same interpreter after every pair of twelve state-leaving fragments are covered by further harnesses. Bounded; floats as reals.",
          "4.C05")
 CLAIMS["C16"] = ("bounded symbolic execution (symx, real arithmetic) of the real path-construction, painting, colour and q/Q/cm operators and PDFLayoutAnalyzer.paint_path against a reference model of ISO 32000-1 8.5",
          "For every program [q] state-op (w d G g RG rg K k cm, or a colour operator followed by sc/scn/SC/SCN) ; m|re + K construction operators chosen symbolically ; any painting operator ; [Q sc|SC] ; m l S, "
          "with ALL operands symbolic reals, each painted subpath yields one shape with the transformed end points in order, the right class (line / closed axis-aligned quadrilateral / curve), flags, line width, dash, "
-         "colours at painting time, q/Q restoring them, and n leaving no residue; five-point subpaths with all coordinates symbolic are classified line / rectangle / curve correctly; X ; q ; Y ; paint ; Q ; paint for every pair of state operators restores every component (CTM, width, dash, colours, colour spaces); for every pair of pages, each with none or one named colour space in its resources, a name selects what the page's OWN resources define whatever was interpreted before (predefined table unchanged); m l [l] h followed by 0..2 further segments, with or without a second subpath, under closing and non-closing painting operators keeps every segment. K=2 quick, 3 thorough; floats as reals.",
+         "colours at painting time, q/Q restoring them, and n leaving no residue; five-point subpaths with all coordinates symbolic are classified line / rectangle / curve correctly; X ; q ; Y ; paint ; Q ; paint for every pair of state operators restores every component (CTM, width, dash, colours, colour spaces); for every pair of pages, each with none or one named colour space in its resources, a name selects what the page's OWN resources define whatever was interpreted before (predefined table unchanged); m l [l] h followed by 0..2 further segments, with or without a second subpath, under closing and non-closing painting operators keeps every segment; a second page on the same interpreter after every pair of ten state-leaving fragments yields the shapes of a fresh interpreter. K=2 quick, 3 thorough; floats as reals.",
          "4.C16")
 CLAIMS["C19"] = ("bounded symbolic execution (symx, symbolic pixels) of the real CCITTG4Parser coding steps, mode interpreter and ccittfaxdecode against the T.6 definitions and a reference T.6 encoder",
          "From every line state (all reference-line bits, a0, colour, coded prefix symbolic; W=8 quick, 10 thorough) one vertical / pass / horizontal step does what T.6 2.2 defines; for every bitmap of the bounded "
@@ -55,7 +55,7 @@ CLAIMS["C08"] = ("bounded symbolic execution (symx, real arithmetic) of the real
 CLAIMS["C09"] = ("bounded symbolic execution (symx, real arithmetic) of the real group_objects / LTTextLine*.add / find_neighbors / analyze on two objects with symbolic boxes and symbolic LAParams",
          "For ALL box coordinates and ALL line_overlap in [0,1), char_margin, word_margin: two consecutive glyphs share a line exactly when they overlap vertically by more than line_overlap x min height and are "
          "closer than char_margin x max width, and a space is inserted exactly when the gap exceeds word_margin x size; the neighbour relation of two lines equals the documented close/same-size/aligned rule "
-         "(both orientations); three left-aligned lines of sizes 10/20 at ALL heights are boxed exactly by the connected components of the (asymmetric) neighbour relation; a single column reads top to bottom and a left column before a right one for every boxes_flow in (-1,1) and None; the layout of two glyphs is unchanged under scaling by 1/4..8.",
+         "(both orientations); three left-aligned lines of sizes 10/20 at ALL heights are boxed exactly by the connected components of the (asymmetric) neighbour relation; a single column reads top to bottom and a left column before a right one for every boxes_flow in (-1,1) and None, a group hierarchy exists exactly for numeric boxes_flow, and three fixed paragraphs read in the order the documented weighting gives on either side of boxes_flow = 1/3; the layout of two glyphs is unchanged under scaling by 1/4..8.",
          "4.C09")
 CLAIMS["C02"] = ("bounded symbolic execution (symx) of the real PDFXRefStream.get_pos/get_objids, PDFDocument.getobj/_getobj_objstm/read_xref_from/find_xref and PDFXRef.load",
          "For all /Index ranges (symbolic starts), field widths, ALL entry bytes and every object number the cross-reference stream decoding equals ISO 7.5.8; for every revision table (each object absent/direct/"
@@ -75,7 +75,7 @@ CLAIMS["C18"] = ("bounded symbolic execution (symx, symbolic bytes) of the real 
 CLAIMS["C15"] = ("symbolic execution of the real CMapDB._load_data and ImageWriter._create_unique_image_name: CrossHair (symbolic str over all of Unicode, budgeted) plus symx (every name over an 8-letter hostile alphabet, exhaustive)",
          "With the filesystem replaced by a recording stub whose exists() answers are symbolic, every path that a CMap name makes the library probe or open lies directly inside one of the two character-map "
          "directories, and the path chosen for an exported image lies directly inside the output directory, was reported non-existing and is the unique first free candidate - confirmed over all paths for "
-         "every name of length <= 4 over the alphabet '/', '.', NUL, backslash, letters, ':', '~', and for every name of length <= 7 over './a' with CMAP_PATH=/e/a/ (sibling directories such as ../aa/a); image names of 200..5000 characters in seven shapes satisfy the same contract; the real extract_text_to_fp with output_dir, run under an audit hook with pre-seeded directories on generated documents (10 hostile image names x 10 image kinds x 5 hostile font /Encoding names), creates files only directly inside the output directory, changes no existing file and opens for reading only the library's own resources (real calls selected by symbolic choices); CrossHair searches names of length <= 5 over all code points within its time budget (no counterexample; not a confirmation).",
+         "every name of length <= 4 over the alphabet '/', '.', NUL, backslash, letters, ':', '~', and for every name of length <= 7 over './a' with CMAP_PATH=/e/a/ (sibling directories such as ../aa/a), and with CMAP_PATH unset (the directories searched are absolute and the same as for a harmless name); image names of 200..5000 characters in seven shapes satisfy the same contract; the real extract_text_to_fp with output_dir, run under an audit hook with pre-seeded directories on generated documents (10 hostile image names x 10 image kinds x 5 hostile font /Encoding names), creates files only directly inside the output directory, changes no existing file and opens for reading only the library's own resources (real calls selected by symbolic choices); CrossHair searches names of length <= 5 over all code points within its time budget (no counterexample; not a confirmation).",
          "4.C15")
 CLAIMS["C11"] = ("symbolic execution (symx; strings as symbolic choices over a hostile alphabet) of the real TextConverter / XMLConverter.receive_layout and utils.enc",
          "For every glyph text, font name and figure name of length <= 3 over an alphabet of XML-special, quote, control, non-ASCII and ordinary characters: the XML output parses with an independent XML parser and "
@@ -106,11 +106,11 @@ CLAIMS["C13"] = ("symbolic execution (symx) of the typed accessors, tree/chain w
          "PARTIAL by design (fault sequences over whole real documents are whole-program runs): for every reference graph over 3 objects (self-loops, cycles, dangling) and every value kind each accessor terminates "
          "within a look-up bound and raises only the library family; number-tree Kids cycles and object-stream containment cycles terminate; rldecode on ALL byte strings of <= 3 bytes, the predictors on every "
          "geometry incl. 0 and the ASCII/LZW/CCITT filters on corrupt payloads raise only the library family; every single fault (12 kinds at every key, nested entry and array element: 44 sites of an 8-object and 185 sites of a 24-object feature-rich seed document) and every truncation of both documents keeps "
-         "extract_text inside the family, without hang or recursion exhaustion; the same document stored in an object stream + cross-reference stream: every truncation of both payloads and 49 ill-valued /N /First /W /Index /Size /Prev ... entries; every entry of an R2/R3/R4 encryption dictionary; 25 counts / ranges / sizes / offsets set to numbers far beyond the file (work stays within 5 s and 2 GiB); every token of a ToUnicode CMap program; every truncation and single-byte corruption of embedded TrueType / Type 1 font programs; every operand of a content stream that uses every operator kind replaced by a value of another type or removed, every inline-image entry replaced / removed / valueless / doubled. Each counterexample is replayed through extract_text on a generated PDF.",
+         "extract_text inside the family, without hang or recursion exhaustion; the same document stored in an object stream + cross-reference stream: every truncation of both payloads and 49 ill-valued /N /First /W /Index /Size /Prev ... entries; every entry of an R2/R3/R4 encryption dictionary; 25 counts / ranges / sizes / offsets set to numbers far beyond the file (work stays within 5 s and 2 GiB); every token of a ToUnicode CMap program; every truncation and single-byte corruption of embedded TrueType / Type 1 font programs; page trees with shared or mutually cyclic nodes (chains with repeated kids, diamonds, cliques) stay within the work bound; every operand of a content stream that uses every operator kind replaced by a value of another type or removed, every inline-image entry replaced / removed / valueless / doubled. Each counterexample is replayed through extract_text on a generated PDF.",
          "4.C13")
 CLAIMS["C12"] = ("symbolic execution (symx) of the operations that touch process-wide or cached state (get_encoding, use_cmap, interning, init_resources, get_font, resolve_all/decipher_all, CMapDB caches), plus small end-to-end call histories driven by symbolic choices",
          "PARTIAL by design: arbitrary histories and interleavings of extract_* calls are whole-program runs; the claim is reduced to frame conditions - each operation leaves the shared tables / the document's own "
-         "dictionaries unchanged and returns what it returns in isolation, for every bounded history (Differences arrays, 3-call get_font histories over eight fonts - two sharing a descendant, two without /Encoding of which one recovers it from an embedded font program, two uses of standard-14 Helvetica with different Differences - with every EncodingDB table and the standard-14 metrics table compared before/after, encrypted-document histories (C10.H7) with caching on/off and double reads, 3-call CMapDB histories, "
+         "dictionaries unchanged and returns what it returns in isolation, for every bounded history (Differences arrays, 3-call get_font histories over eight fonts - two sharing a descendant, two without /Encoding of which one recovers it from an embedded font program, two uses of standard-14 Helvetica with different Differences - with every EncodingDB table and the standard-14 metrics table compared before/after, encrypted-document histories (C10.H7) with caching on/off and double reads, 3-call CMapDB histories, a resource-less page after pages with fonts and forms, "
          "2 earlier interns) - and checked end to end on every 3-call history over two documents that share object numbers and font names, with caching on/off, page-at-a-time vs together, and interleaved "
          "page iterators. The inventory of module/class-level mutable containers is recomputed from the AST on every run.",
          "4.C12")
